@@ -248,8 +248,8 @@ func TestC09_GrammarEdits(t *testing.T) {
 	rec := stats.New(t, "C09", rule)
 	rp.Check(t, 70000, 2100000, func(rt *rapid.T) {
 		g := newGen(rt)
-		kind := rp.Pick(rt, "kind", "oci", "blob")
-		nEdits := rp.Pick(rt, "nEdits", 0, 0, 0, 1, 1, 1, 1, 1, 2, 2)
+		kind := pick(rt, "kind", "oci", "blob")
+		nEdits := pick(rt, "nEdits", 0, 0, 0, 1, 1, 1, 1, 1, 2, 2)
 		// choose the operators first, so that the document can be generated with the
 		// statements they need and every operator is equally likely
 		var chosen []operator
@@ -259,7 +259,7 @@ func TestC09_GrammarEdits(t *testing.T) {
 			if chance(rt, "silentOp", 16) {
 				pool = opsFor(kind, true)
 			}
-			o := pool[rapid.IntRange(0, len(pool)-1).Draw(rt, "op")]
+			o := pool[intRange(rt, "op", 0, len(pool)-1)]
 			chosen = append(chosen, o)
 			nd = nd.max(o.need)
 		}
@@ -308,9 +308,26 @@ func TestC09_GrammarEdits(t *testing.T) {
 				cl = append(cl, "silent-op="+e.Op)
 			} else {
 				cl = append(cl, "op="+e.Op, "op="+e.Op+"/"+kind)
+				if w, _, _ := strings.Cut(e.Way, "/"); w != "" {
+					cl = append(cl, "way="+e.Op+":"+w)
+				}
+			}
+		}
+		if decisive == 1 && len(c.Edits) == 1 {
+			// a single edit is meant to violate exactly the rule it is named after
+			if len(v.Violations) == 1 && v.Violations[0] == c.Edits[0].Op {
+				cl = append(cl, "single-edit=exactly-its-rule")
+			} else {
+				cl = append(cl, "single-edit=also-other-rules", "single-edit=also-other-rules:"+c.Edits[0].Op)
 			}
 		}
 		cl = append(cl, runner{rec, rt, t}.run(c, d, v, sh, withFile, legacy)...)
+		for i, x := range cl { // samples are filed under the first class: the first operator, if any
+			if strings.HasPrefix(x, "op=") {
+				cl[0], cl[i] = cl[i], cl[0]
+				break
+			}
+		}
 		rec.Case(cl, decisive > 0 || len(d.Stmts) >= 2, stats.Fingerprint(kind, c.Document), func() any { return c })
 	})
 }
@@ -321,7 +338,7 @@ func TestC09_Assembled(t *testing.T) {
 	rec := stats.New(t, "C09", rule)
 	rp.Check(t, 30000, 900000, func(rt *rapid.T) {
 		g := newGen(rt)
-		kind := rp.Pick(rt, "kind", "oci", "blob")
+		kind := pick(rt, "kind", "oci", "blob")
 		d := g.assembled(kind)
 		v := judge(d)
 		c := &Case{Family: "assembled", Edits: []Edit{}}
@@ -329,7 +346,7 @@ func TestC09_Assembled(t *testing.T) {
 		if nv > 3 {
 			nv = 3
 		}
-		cl := []string{"kind=" + kind, "family=assembled", vclass(v), fmt.Sprintf("violations=%d", nv), fmt.Sprintf("statements=%d", len(d.Stmts))}
+		cl := []string{"assembled/" + vclass(v), "kind=" + kind, "family=assembled", vclass(v), fmt.Sprintf("violations=%d", nv), fmt.Sprintf("statements=%d", len(d.Stmts))}
 		for _, x := range v.Violations {
 			cl = append(cl, "viol="+x)
 		}
